@@ -78,21 +78,26 @@ def _oracle(args):
 PAIR_MARKERS = ['1', '2', '*', 'a', '1.', 'a:', '(b)', '\u00b9', '12"', "x'", 'a-b', 'A', '10', '**', '\u0663']
 
 def pair_doc(rng):
-    """returns (text, {marker: content token})"""
-    ms = rng.sample(PAIR_MARKERS, rng.randint(1, 4))
-    lines, want = [], {}
+    """returns (text, [(k, marker, content token)]): every reference ref<k>z has its own FOOTNOTE block in its own section;
+    markers may be re-used in other sections (numbering that restarts), and a section may hold a stray block whose marker
+    is only referenced in other sections"""
+    reuse = rng.random() < 0.5
+    pool = rng.sample(PAIR_MARKERS, 4)
+    lines, want = [], []
     k = 0
-    for si in range(rng.randint(1, 3)):
+    nsec = rng.randint(1, 3)
+    for si in range(nsec):
         lines.append('SEC %d - heading%dz' % (si + 1, si))
-        mine = [m for i, m in enumerate(ms) if i % 3 == si % 3] if si < 2 else []
-        items = []
-        for m in mine:
-            k += 1; tok = 'note%dz' % k; want[m] = tok
+        ms = rng.sample(pool, rng.randint(0, 2)) if reuse else [m for i, m in enumerate(pool) if i % 3 == si]
+        body = []
+        others = [m for m in pool if m not in ms]
+        if reuse and si + 1 < nsec and others and rng.random() < 0.4:
+            # a block nobody in this section refers to; its marker may be used by a later section, which has its own block
+            body += ['  FOOTNOTE ' + rng.choice(others), '    stray%dz words' % si, '']
+        for m in ms:
+            k += 1; tok = 'note%dz' % k; want.append((k, m, tok))
             ref = '  ref%dz {{FOOTNOTE %s}} tail%dz' % (k, m, k)
             blk = ['  FOOTNOTE ' + m, '    ' + tok + ' more%dz' % k]
-            items.append((ref, blk))
-        body = []
-        for ref, blk in items:
             if rng.random() < 0.5: body += [ref, ''] + blk + ['']        # block after its reference
             else: body += blk + ['', ref, '']                            # block before its reference
         if rng.random() < 0.5: body.append('  plain%dz' % si)
@@ -108,15 +113,28 @@ def _pair_oracle(args):
     except Exception as e:
         return ('raised', impl.exc_kind(e), text)
     ns = '{%s}' % xmlsx.NS
-    got = {}
-    for n in xml.iter(ns + 'authorialNote'):
-        got.setdefault(n.get('marker'), []).append(''.join(n.itertext()))
-    for m, tok in want.items():
-        if m not in got: return ('bad', 'no authorial note with marker %r' % m, text)
-        if len(got[m]) != 1 or tok not in got[m][0]:
-            return ('bad', 'the note for marker %r holds %r, not the content of its FOOTNOTE block (%s)' % (m, got[m], tok), text)
-    stubs = [''.join(p_.itertext()) for p_ in xml.iter(ns + 'p') if ''.join(p_.itertext()).startswith('FOOTNOTE') and p_.getparent().tag != ns + 'authorialNote']
-    if stubs: return ('bad', 'a referenced FOOTNOTE block was left as ordinary content: %r' % stubs[:2], text)
+    paras = {}
+    for p_ in xml.iter(ns + 'p'):
+        t = (p_.text or '')
+        if t.startswith('ref') and p_.getparent().tag != ns + 'authorialNote':
+            paras[t.split()[0]] = p_
+    for k, m, tok in want:
+        p_ = paras.get('ref%dz' % k)
+        if p_ is None: return ('bad', 'the paragraph of reference %d is gone' % k, text)
+        notes = [n for n in p_.iter(ns + 'authorialNote')]
+        if len(notes) != 1 or notes[0].get('marker') != m:
+            return ('bad', 'reference %d (marker %r) became %d notes %r' % (k, m, len(notes), [n.get('marker') for n in notes]), text)
+        got = ''.join(notes[0].itertext())
+        if tok not in got:
+            return ('bad', 'the note of reference %d (marker %r) holds %r, not the content of the block of its own section (%s)' % (k, m, got, tok), text)
+    # referenced blocks leave no stub behind; stray blocks stay as ordinary content
+    stubs = sum(1 for p_ in xml.iter(ns + 'p') if ''.join(p_.itertext()).startswith('FOOTNOTE') and p_.getparent().tag != ns + 'authorialNote')
+    strays = text.count('stray')
+    if stubs != strays:
+        return ('bad', '%d FOOTNOTE blocks left as ordinary content, %d expected (the unreferenced ones)' % (stubs, strays), text)
+    for si in range(3):
+        if ('stray%dz' % si) in text and not any(('stray%dz' % si) in ''.join(p_.itertext()) for p_ in xml.iter(ns + 'p') if p_.getparent().tag != ns + 'authorialNote'):
+            return ('bad', 'the unreferenced block of section %d did not stay in place' % (si + 1), text)
     return ('ok', None, text)
 
 def correspondence(ctx):
